@@ -148,7 +148,7 @@ func (v *FnVC) encodeInstr(ins ssa.Instruction) {
 		el := i.Type().Underlying().(*types.Slice).Elem()
 		k := v.elemKey(el)
 		v.panicCheck("makeslice", fmt.Sprintf("(and (<= 0 %s) (<= %s %s))", ln.S, ln.S, cp.S), "makeslice: len out of range", i.Pos())
-		v.heapSet(st, k, fmt.Sprintf("(store %s %s ((as const (Array Int %s)) %s))", v.heapGet(st, k), r, v.S.SortOf(el), v.S.Zero(el).S))
+		v.heapSet(st, k, fmt.Sprintf("(store %s %s %s)", v.heapGet(st, k), r, v.S.ConstArray(fmt.Sprintf("(Array Int %s)", v.S.SortOf(el)), v.S.Zero(el).S)))
 		v.setVal(i, fmt.Sprintf("(mkSlice %s 0 %s %s)", r, ln.S, cp.S))
 	case *ssa.MakeChan:
 		r := st.alloc
@@ -230,6 +230,7 @@ func (v *FnVC) encodeAlloc(i *ssa.Alloc) {
 		l := &Loc{Kind: LLocal, Key: v.localKey(i), T: el, RootT: el}
 		v.ptrs[i] = l
 		v.store(st, l, v.S.Zero(el))
+		v.initGhosts(el, func() string { return v.ptrTerm(l) })
 		return
 	}
 	r := st.alloc
@@ -240,6 +241,21 @@ func (v *FnVC) encodeAlloc(i *ssa.Alloc) {
 	l := v.locFromPtr(ref, el)
 	v.ptrs[i] = l
 	v.store(st, l, v.S.Zero(el))
+	v.initGhosts(el, func() string { return ref })
+}
+
+// initGhosts sets the ghost fields of a freshly allocated object to their zero values.
+func (v *FnVC) initGhosts(el types.Type, ref func() string) {
+	prefix := typeKey(el) + "."
+	for k, g := range v.W.ghosts {
+		if !strings.HasPrefix(k, prefix) {
+			continue
+		}
+		gt, so := v.sortOfSpecType(g.Sort, v.Fn.Pkg.Pkg)
+		key := v.regKey("G:"+typeKey(el)+"."+g.Name, fmt.Sprintf("(Array Int %s)", so))
+		zero := v.S.zeroOfSort(so, gt)
+		v.heapSet(v.cur, key, fmt.Sprintf("(store %s %s %s)", v.heapGet(v.cur, key), ref(), zero))
+	}
 }
 
 func (v *FnVC) convertStruct(x Term, to types.Type) Term {
@@ -649,7 +665,7 @@ func (v *FnVC) encodeSlice(i *ssa.Slice) {
 		}
 		var content string
 		if arr.Len() <= 4 {
-			content = fmt.Sprintf("((as const (Array Int %s)) %s)", es, v.S.Zero(arr.Elem()).S)
+			content = v.S.ConstArray(fmt.Sprintf("(Array Int %s)", es), v.S.Zero(arr.Elem()).S)
 			for n := int64(0); n < arr.Len(); n++ {
 				content = fmt.Sprintf("(store %s %d %s)", content, n, v.arrSelect(whole.S, arr, fmt.Sprint(n)))
 			}
